@@ -117,9 +117,67 @@ def program_family(res, tier, rnd):
     res.coverage["program_family"] = len(scs)
 
 
+def wide_family(res, tier, rnd):
+    """final views with double-width runes and SGR styling (outside the Coq theorems' alphabet): the real renderer's
+    bytes through lib/widevt.py; after Stop the rows above the cursor show the newline-terminated lines of the LAST view
+    written, and nothing of an earlier one (also in the last column, where a wide rune that does not fit is dropped)"""
+    import json
+    import os
+    from .. import common as C
+    from .. import widevt as W
+    from .c06 import WIDE
+    okb, out = C.build_harness()
+    if not okb:
+        raise C.Fail("harness build failed:\n" + out[-2000:])
+
+    def line(w):
+        n = rnd.choice([0, 1, w // 2, w - 1, w, w + 1, w + 3])
+        s = ""
+        while W.width(s) < n:
+            s += rnd.choice(WIDE)
+        if rnd.random() < 0.25 and s:
+            s = "\x1b[1;32m" + s[:len(s) // 2] + "\x1b[0m" + s[len(s) // 2:]
+        return s
+    cases = []
+    for i in range(200 if tier == "quick" else 5000):
+        w, h = rnd.choice([(6, 3), (10, 4), (12, 5), (5, 3), (20, 6), (3, 2)])
+        ops = [{"op": "resize", "w": w, "h": h}]
+        v = [line(w) for _ in range(rnd.randint(1, h - 1))]
+        for k in range(rnd.choice([1, 2, 4])):
+            if k:
+                v = [(line(w) if rnd.random() < 0.6 else l) for l in v]
+            ops += [{"op": "write", "s": list(("\n".join(v) + "\n").encode())}] + ([{"op": "flush"}] if k == 0 or rnd.random() < 0.7 else [])
+        v = [(line(w) if rnd.random() < 0.6 else l) for l in v]
+        ops += [{"op": "write", "s": list(("\n".join(v) + "\n").encode())}, {"op": "stop"}]
+        cases.append({"id": i, "w0": w, "h0": h, "history": [], "used": 0, "ops": ops})
+    ip, op_ = os.path.join(C.CASES, "C07_wide.in.jsonl"), os.path.join(C.CASES, "C07_wide.out.jsonl")
+    with open(ip, "w") as f:
+        for c in cases:
+            f.write(json.dumps({"id": c["id"], "ops": c["ops"]}) + "\n")
+    rc, out, _ = C.run_harness(["renderer", "-out", op_, ip], timeout=600)
+    if rc != 0:
+        raise C.Fail("renderer harness failed: " + out[-1000:])
+    outs = C.read_jsonl(op_)
+    bad = []
+    for c, o in zip(cases, outs):
+        if o.get("panic"):
+            bad.append((c, "the renderer panicked: %s" % o["panic"]))
+            continue
+        f = W.replay_history(c, o["outs"])
+        if f is not None:
+            bad.append((c, "op %d: %s" % f))
+    wide = sum(1 for c in cases if any(W.cw(ch) == 2 for ch in W.strip_sgr(bytes(c["ops"][-2]["s"]).decode())))
+    res.oblige("exploration beyond the theorems' alphabet (double-width runes, SGR styling; Python terminal with cell widths, not Coq): after Stop the screen shows the last view written, %d histories (%d with wide runes in the final view)" % (len(cases), wide),
+               not bad, [b[1] for b in bad[:2]])
+    for c, what in bad[:1]:
+        res.violation("C07:wide-final-view", what, {"wide_case": c})
+    res.coverage["wide_family"] = {"histories": len(cases), "final_view_with_wide_runes": wide}
+
+
 def run(res, tier, seed):
     rnd = random.Random(seed * 2003 + 7)
     program_family(res, tier, rnd)
+    wide_family(res, tier, random.Random(seed * 1013 + 77))
     return R.run_family(res, "C07", PROPS, gen(rnd, tier),
                         rule="histories of writes/flushes in any interleaving (the ticker's timing is the position of Flush) ending in Write v_f; Stop; 0..5 coalesced intermediate views; final views ending in a newline, shrinking, empty; oracle = Spec.shows_final_inline on the real tokens; distinct = distinct (ops, initial rows)")
 
